@@ -25,6 +25,7 @@ for key, r in sorted(results.items()):
         "caught_by": r.get("caught_by", []),
         "not_caught_by": r.get("missed_by", []),
         "notes": r.get("notes", ""),
+        "first_contact": r.get("first_contact", ""),
     })
     json.dump(meta, open(os.path.join(dst, "meta.json"), "w"), indent=1)
     print("imported", key)
